@@ -33,7 +33,10 @@ var typeFmt = []int{0, 1, 1, 2, 3, 4, 5, -1}
 var headingStyles = []string{"Heading2", "heading4", "Title3", "3", "10", "Heading10", "HEADING5", "headingX", "13", "Quote", "Heading0", "heading12"}
 
 func genNumOp(r *rng, canGen bool) numOp {
-	switch r.pick([]int{30, 14, 8, 16, 8, 6, 4, 6, 8}) {
+	switch r.pick([]int{30, 14, 8, 16, 8, 6, 4, 6, 8, 5}) {
+	case 9:
+		// RestartNumbering of a list that exists, of one that does not, or with something that is not a number
+		return numOp{Kind: "Restart", ID: []int{1, 1, 2, 3, 5, 9, 40, -1}[r.intn(8)]}
 	case 0:
 		lvl := r.rangeI(0, 8)
 		if r.chance(15) {
@@ -354,6 +357,15 @@ func runNumCase(ops []numOp) (coq string, fail *OracleFailure, nOK int) {
 					symc = "99%N" // AddNumberedList passes an empty symbol
 				}
 				steps = append(steps, fmt.Sprintf("OItem (mkCfg %d%%N %s %s %s)", eff.Type, symc, cZ(int64(eff.Start)), cZ(int64(eff.Level))))
+				nOK++
+			case "Restart":
+				if op.ID < 0 {
+					d.RestartNumbering("first list")
+					steps = append(steps, "ORestart None")
+				} else {
+					d.RestartNumbering(fmt.Sprint(op.ID))
+					steps = append(steps, fmt.Sprintf("ORestart (Some %d%%nat)", op.ID))
+				}
 				nOK++
 			case "Note":
 				var err error
